@@ -216,7 +216,7 @@ Definition vp_wellformed (v : vproof) : bool :=
       negb (match v_ex v with [] => true | _ => false end) &&
       znodup (map e_node (v_ex v)) &&
       forallb (fun sf => negb (zmem (sf_node sf) (map e_node (v_ex v)))) (v_sfs v) &&
-      (if vkind_eqb (v_kind v) VStuck then true
+      (if vkind_eqb (v_kind v) VStuck then negb (is_some (v_maj v))   (* fd2029f: a stuck voteproof is a draw *)
        else match v_maj v with
             | Some m => match f_ex m with [] => true | fx => zlist_eqb fx (map e_id (v_ex v)) end
             | None => true
@@ -702,11 +702,11 @@ Fixpoint first_bad (mode5 : bool) (pf : prefixes) (e : env) (t : tabs) (b : box)
       if (if mode5 then cmp5 pf b' ob else cmp4 b' o ob) then first_bad mode5 pf e t b' r (S i) else Some i
   end.
 
-(* a validator case: the voteproof of the table, a suffrage, and what the real code said:
-   Voteproof.IsValid(networkID) == nil, isaac.IsValidVoteproofWithSuffrage == nil *)
+(* a case: one forced history (environment, tables, steps with the observation after each) and validator checks:
+   (index of a voteproof of the table, height of the suffrage, what the real code said:
+   Voteproof.IsValid(networkID) == nil, isaac.IsValidVoteproofWithSuffrage == nil) *)
 Inductive case :=
-| CaseHist (e : env) (t : tabs) (steps : list (cop * sobs))
-| CaseValid (t : tabs) (vp : nat) (s : suffrage) (wf valid : bool).
+| CaseHist (e : env) (t : tabs) (steps : list (cop * sobs)) (valids : list (nat * Z * bool * bool)).
 
 (* the key prefix among the string literals of a function: the literal ending in "-" *)
 Fixpoint last_char (s : string) : option Ascii.ascii :=
@@ -717,11 +717,16 @@ Definition prefix_of (l : list string) : string :=
   | None => "?"%string
   end.
 
+Definition check_valid (e : env) (t : tabs) (v : nat * Z * bool * bool) : bool :=
+  let '(i, h, wf, valid) := v in
+  match aget h (en_sufs e) with
+  | Some s => Bool.eqb (vp_wellformed (dvp t i)) wf && Bool.eqb (vp_valid_suf (dvp t i) s) valid
+  | None => false
+  end.
+
 Definition check_case (mode5 : bool) (pf : prefixes) (c : case) : bool :=
   match c with
-  | CaseHist e t steps => check_steps mode5 pf e t box_init steps
-  | CaseValid t i s wf valid =>
-      Bool.eqb (vp_wellformed (dvp t i)) wf && Bool.eqb (vp_valid_suf (dvp t i) s) valid
+  | CaseHist e t steps valids => check_steps mode5 pf e t box_init steps && forallb (check_valid e t) valids
   end.
 
 (* the prefixes and constants of the current Go source (regenerated by the translator) *)
